@@ -375,12 +375,10 @@ def rule_dimension_total(chk, ip, prefix="C16.rank"):
     if dm is None or rm is None:
         chk.ob(prefix + "/dimension-total", False, "anchor-missing: the dimension-cast match of find / get_rank", where(find))
         return
-    names = {}
-    for v in F.exprs(dm, "Var"):
-        names.setdefault(v["name"], v["id"])
+    names = find_roles(find, dm)
     need = ["source_l", "dest_l", "dest", "source_id", "dest_id"]
     if not all(n in names for n in need):
-        chk.ob(prefix + "/dimension-total", False, "anchor-missing: variables %s of the dimension-cast match" % [n for n in need if n not in names], where(find, dm))
+        chk.ob(prefix + "/dimension-total", False, "anchor-missing: inputs %s of the dimension-cast match" % [n for n in need if n not in names], where(find, dm))
         return
     rv = F.leftmost_var(rm["scrut"])
     n = 0
@@ -419,6 +417,46 @@ def rule_dimension_total(chk, ip, prefix="C16.rank"):
                        "ImplicitConversion::find accepts the dimension cast %s but get_rank has no arm for it: overload "
                        "resolution panics (%s)" % (shape, res), where(gr, rm), sample={"cast": shape, "rank": res})
     chk.floor(prefix.replace(".rank", ".floor") + "/dimension-casts", n, 6, "distinct dimension-cast shapes constructed by find", where(find))
+
+
+def find_roles(find, dm):
+    """The variables the dimension-cast match of ImplicitConversion::find reads, identified by what they ARE (not by
+    their names): dest_l = the scrutinee, source_l = the layer the inner matches pair with the value category,
+    *_id = the id each layer was read from with get_type_layer, dest = the ExpressionType parameter whose category is tested."""
+    roles = {}
+    lets = {}
+    for s in F.walk(find["thir"]):
+        if s.get("k") == "LetStmt" and "init" in s:
+            if s["pat"].get("k") == "Bind":
+                lets[s["pat"]["id"]] = s["init"]
+    dv = F.leftmost_var(dm["scrut"])
+    if dv is None:
+        return roles
+    roles["dest_l"] = dv["id"]
+
+    def layer_source(vid):
+        init = lets.get(vid)
+        if init is None:
+            return None
+        for c in F.exprs(init, "Call"):
+            if short(c.get("fn") or "") == "get_type_layer" and len(c.get("args", [])) > 1:
+                v = F.leftmost_var(c["args"][1])
+                return v["id"] if v else None
+        return None
+    roles["dest_id"] = layer_source(dv["id"])
+    for m in F.exprs(dm, "Match"):
+        if m is dm:
+            continue
+        sc = F.strip(m["scrut"])
+        if sc.get("k") == "Tuple" and len(sc["elems"]) == 2:
+            sv = F.leftmost_var(sc["elems"][0])
+            if sv is not None and sv["id"] != dv["id"]:
+                roles["source_l"] = sv["id"]
+                roles["source_id"] = layer_source(sv["id"])
+            for v in F.exprs(sc["elems"][1], "Var"):
+                if "ExpressionType" in v.get("ty", ""):
+                    roles["dest"] = v["id"]
+    return {k: v for k, v in roles.items() if v is not None}
 
 
 def dim_name(d):
